@@ -136,7 +136,7 @@ def ending(src, napps=1, nprocs=2, order=('restart', 'shutdown'), rounds=10, los
                 core.process_event(ids[h], app_name, name, PS.RUNNING)
             p = core.context.applications[app_name].processes[name]
             start_seq = 1 if lean else src.pick(f'{app_name}_{name}_start_seq', [1, 2])
-            stop_seq = -1 if lean else src.pick(f'{app_name}_{name}_stop_seq', [-1, 1, 2])
+            stop_seq = -1 if lean else src.pick(f'{app_name}_{name}_stop_seq', [-1, 0, 1, 2])
             adapter.set_rules(p.rules, start_sequence=start_seq, stop_sequence=stop_seq)
             ns = f'{app_name}:{name}'
             procs[ns] = {'app': app_name, 'hosts': [ids[h] for h in hosts],
